@@ -204,10 +204,14 @@ class Ctx:
         """An armed absence test is believed only where the function it looked at is (nearly) the reviewed function:
         see fdiff.  Files without a function-level reference (.hy sources) are taken as recognised."""
         src = getattr(self, "src", None)
-        if src is None or not file or not str(file).endswith(".py") or os.environ.get("HYVERIF_ALL_STRICT"):
+        if src is None or not file or not str(file).endswith((".py", ".hy")) or os.environ.get("HYVERIF_ALL_STRICT"):
             return True
         try:
             from . import fdiff
+            if str(file).endswith(".hy"):
+                ok, why = fdiff.hy_small_edit(src.hy(file), line or 0)
+                self.last_recognition = why
+                return ok
             mod = src.variant(True).py(file)
             ok, why = fdiff.small_edit(mod, line or 0) if line else fdiff.file_small_edit(mod)
         except Exception:
@@ -253,7 +257,7 @@ def transfer(ctx, src, mod, rules, key_filter=None, rename=None):
     sub.strict_rules = set(getattr(mod, "STRICT", ()))
     sub.src = src
     try:
-        mod.check(sub, src.variant(bool(getattr(mod, "CANON", False))))
+        run_check(mod, sub, src.variant(bool(getattr(mod, "CANON", False))))
     except Unresolved as e:
         sub.unres("NEED", f"{mod.__name__.split('.')[-1]}", str(e))
     keep = (lambda k: True) if key_filter is None else key_filter
@@ -338,6 +342,108 @@ def write_json(path, obj):
     os.replace(tmp, path)
 
 
+
+# ---------------------------------------------------------------------------
+# Sliced execution of a check function
+# ---------------------------------------------------------------------------
+#
+# A check is a straight-line sequence of rule blocks.  When a construct that a block builds on is not recognised
+# (ctx.need), only the statements that depend on it are skipped - the statements reading a variable the failed block
+# was about - and every other rule is still decided.  The body of check(ctx, src) is therefore executed statement by
+# statement in one namespace; after a failed `need` the names its condition was about (and everything later computed
+# from them) are poisoned, statements reading a poisoned name are recorded as unresolved, and an exception raised by a
+# later statement (it met a half-built value) is treated the same way instead of aborting the run.
+
+class _StopCheck(Exception):
+    pass
+
+
+_SLICED = {}
+
+
+def _sliced(mod):
+    import ast as _ast
+    import inspect
+
+    key = mod.__name__
+    if key in _SLICED:
+        return _SLICED[key]
+    srctext = inspect.getsource(mod)
+    tree = _ast.parse(srctext)
+    fn = next(n for n in tree.body if isinstance(n, _ast.FunctionDef) and n.name == "check")
+
+    class Ret(_ast.NodeTransformer):
+        def visit_FunctionDef(self, node):
+            return node
+
+        visit_AsyncFunctionDef = visit_Lambda = visit_FunctionDef
+
+        def visit_Return(self, node):
+            return _ast.copy_location(_ast.Raise(exc=_ast.Call(func=_ast.Name(id="_StopCheck", ctx=_ast.Load()), args=[], keywords=[]), cause=None), node)
+
+    stmts = []
+    for st in fn.body:
+        st = Ret().visit(st)
+        _ast.fix_missing_locations(st)
+        stores = {n.id for n in _ast.walk(st) if isinstance(n, _ast.Name) and isinstance(n.ctx, (_ast.Store, _ast.Del))}
+        stores |= {n.name for n in _ast.walk(st) if isinstance(n, (_ast.FunctionDef, _ast.ClassDef))}
+        stores |= {(a.asname or a.name).split(".")[0] for n in _ast.walk(st) if isinstance(n, (_ast.Import, _ast.ImportFrom)) for a in n.names}
+        loads = {n.id for n in _ast.walk(st) if isinstance(n, _ast.Name) and isinstance(n.ctx, _ast.Load)}
+        needs = []
+        for n in _ast.walk(st):
+            if isinstance(n, _ast.Call) and isinstance(n.func, _ast.Attribute) and n.func.attr == "need" and n.args:
+                needs.append({x.id for x in _ast.walk(n.args[0]) if isinstance(x, _ast.Name)})
+        code = compile(_ast.Module(body=[st], type_ignores=[]), mod.__file__, "exec")
+        stmts.append((code, stores, loads, needs, st.lineno))
+    _SLICED[key] = (stmts, [a.arg for a in fn.args.args])
+    return _SLICED[key]
+
+
+def run_check(mod, ctx, src):
+    """Execute mod.check(ctx, src) with the slicing described above."""
+    if os.environ.get("HYVERIF_NO_SLICE") or not hasattr(mod, "__file__"):
+        return mod.check(ctx, src)
+    try:
+        stmts, params = _sliced(mod)
+    except (OSError, SyntaxError, StopIteration):
+        return mod.check(ctx, src)
+    ns = dict(mod.__dict__)
+    ns[params[0]] = ctx
+    ns[params[1]] = src
+    ns["_StopCheck"] = _StopCheck
+    assigned_at = {}
+    poisoned = set()
+    degraded = False
+    for i, (code, stores, loads, needs, lineno) in enumerate(stmts):
+        hit = loads & poisoned
+        if hit:
+            ctx.unres("NEED", f"{mod.__name__.split('.')[-1]}:{lineno}", f"skipped: depends on `{sorted(hit)[0]}`, which was not recognised")
+            poisoned |= stores
+            continue
+        try:
+            exec(code, ns)
+        except _StopCheck:
+            break
+        except Unresolved as e:
+            degraded = True
+            ctx.unres("NEED", f"{mod.__name__.split('.')[-1]}:{lineno}", str(e))
+            cand = set().union(*needs) if needs else set()
+            cand = {c for c in cand if c in assigned_at and c not in params}
+            if cand:
+                latest = max(assigned_at[c] for c in cand)
+                poisoned |= {c for c in cand if assigned_at[c] == latest}
+            poisoned |= {x for x in stores if x not in assigned_at}
+        except AnalysisError:
+            raise
+        except Exception as e:
+            if not degraded:
+                raise
+            ctx.unres("NEED", f"{mod.__name__.split('.')[-1]}:{lineno}", f"skipped after an unrecognised construct ({type(e).__name__}: {str(e)[:80]})")
+            poisoned |= stores
+        for x in stores:
+            assigned_at[x] = i
+
+
 def run_property(prop, fn, tier, seed, src=None, write=True, out=sys.stdout, mod=None):
     """Run check function `fn(ctx, src)`; returns exit status (0, 1, 2)."""
     t0 = time.time()
@@ -348,7 +454,10 @@ def run_property(prop, fn, tier, seed, src=None, write=True, out=sys.stdout, mod
     status = 0
     err = None
     try:
-        fn(ctx, src)
+        if mod is not None and getattr(mod, "check", None) is fn:
+            run_check(mod, ctx, src)
+        else:
+            fn(ctx, src)
     except Unresolved as e:
         ctx.unres("NEED", prop, str(e))
     except AnalysisError as e:
@@ -365,8 +474,8 @@ def run_property(prop, fn, tier, seed, src=None, write=True, out=sys.stdout, mod
         )
         status = 2
 
-    if status == 0 and not ctx.instances and not ctx.findings:
-        err = "no rule instance could be decided: the analysis no longer sees the code it was written for" + (f" ({ctx.unresolved[0]['why']})" if ctx.unresolved else "")
+    if status == 0 and not ctx.instances and not ctx.findings and not ctx.unresolved:
+        err = "no rule instance was produced at all: the analysis no longer sees the code it was written for"
         status = 2
     known = known_for(prop)
     new, matched = [], []
